@@ -51,7 +51,14 @@ MANIFEST = {
             "count of a compiled type of the shared schema taken / given back from private data trees with the atomic "
             "operations: in every schedule the counter is its initial value plus the operations that took effect; "
             "type_refcount_plain_increment_refuted: a plain ++ loses an increment or overwrites a decrement), "
-            "C16_log_temp_override_isolated (when library code silences the "
+            "C16_scratch_local_interference_free (the values a thread reads back from a "
+            "thread-local scratch buffer - struct tm of gmtime_r/localtime_r - are in every schedule the ones it reads alone, "
+            "whatever other threads do with the process-wide buffer; Example C16_static_scratch_shared for gmtime()), "
+            "C16_slot_read_in_section_valid (programs passing the lock check and the slot check read err_ht slots only "
+            "through pointers into the current arena; Example C16_err_slot_read_after_unlock: read after the unlock is an "
+            "unlocked access through a pointer into a freed arena), C16_hash_read_after_own_fill (a thread that went through "
+            "the locked fill of all nodes always reads cached LYB hashes; Example C16_hash_cache_double_checked: an unlocked "
+            "fast path reads a hash that is not stored yet), C16_log_temp_override_isolated (when library code silences the "
             "logger only through the thread-local override ly_temp_log_options - all compiled API programs do - a thread "
             "without an override of its own always logs with the options the application set, in every schedule; Example "
             "C16_log_global_window_visible: the same trial done with the process-wide ly_log_options() is seen by other "
